@@ -592,8 +592,148 @@ func singleFieldMessages(md protoreflect.MessageDescriptor, emptyNested bool, yi
 	yield("minimal", base())
 }
 
+// packedElemSize: the bytes one element of a packed list of fd's kind takes (0: not a packable kind).
+func packedElemSize(fd protoreflect.FieldDescriptor, v protoreflect.Value) int {
+	switch fd.Kind() {
+	case protoreflect.BoolKind:
+		return 1
+	case protoreflect.EnumKind:
+		return protowire.SizeVarint(uint64(int64(v.Enum())))
+	case protoreflect.Int32Kind, protoreflect.Int64Kind:
+		return protowire.SizeVarint(uint64(v.Int()))
+	case protoreflect.Uint32Kind, protoreflect.Uint64Kind:
+		return protowire.SizeVarint(v.Uint())
+	case protoreflect.Sint32Kind, protoreflect.Sint64Kind:
+		return protowire.SizeVarint(protowire.EncodeZigZag(v.Int()))
+	case protoreflect.Fixed32Kind, protoreflect.Sfixed32Kind, protoreflect.FloatKind:
+		return 4
+	case protoreflect.Fixed64Kind, protoreflect.Sfixed64Kind, protoreflect.DoubleKind:
+		return 8
+	}
+	return 0
+}
+
+// payloadLimits: the payload sizes at which a length prefix grows by one byte (2^7 is crossed by the x16 / x32 / x128
+// lists of singleFieldMessages and the 130-byte blobs of boundary; 2^21 and beyond: see bigPayloadMessages).
+var payloadLimits = []int{1 << 14}
+
+// bigPayloadMessages: for every length-delimited scalar position of md — a PACKED list of any kind, a string / bytes
+// field (singular, or one element of a list) — the message with that field alone and a payload of exactly L-1, L and
+// L+1 bytes for every limit L of payloadLimits (fixed-width kinds: the nearest multiples of the element width on both
+// sides). Packed lists come in three compositions: the kind's widest encoding repeated and topped up with its
+// narrowest one, the narrowest one alone (the longest list), and both alternating — a prefix sized from the element
+// count, from an assumed width, or reserved before the elements are written is wrong in one of them.
+func bigPayloadMessages(md protoreflect.MessageDescriptor, yield func(label string, m *dynamicpb.Message)) {
+	base := func() *dynamicpb.Message {
+		if hasRequired(md) {
+			return minimalMessage(md)
+		}
+		return dynamicpb.NewMessage(md)
+	}
+	for i := 0; i < md.Fields().Len(); i++ {
+		fd := md.Fields().Get(i)
+		if fd.IsMap() || fd.Message() != nil {
+			continue
+		}
+		if fd.Kind() == protoreflect.StringKind || fd.Kind() == protoreflect.BytesKind {
+			for _, lim := range payloadLimits {
+				for _, total := range []int{lim - 1, lim, lim + 1} {
+					var v protoreflect.Value
+					if fd.Kind() == protoreflect.StringKind {
+						v = protoreflect.ValueOfString(strings.Repeat("s", total))
+					} else {
+						v = protoreflect.ValueOfBytes(bytes.Repeat([]byte{0x80}, total))
+					}
+					m := base()
+					if fd.IsList() {
+						m.Mutable(fd).List().Append(v)
+					} else {
+						m.Set(fd, v)
+					}
+					yield(fmt.Sprintf("single-field %s payload=%d bytes", fd.Name(), total), m)
+				}
+			}
+			continue
+		}
+		if !fd.IsList() || !fd.IsPacked() {
+			continue
+		}
+		// the widest and the narrowest element of the kind
+		ext := extremeScalars(fd)
+		wide, narrow := ext[0], ext[0]
+		for _, v := range ext {
+			if packedElemSize(fd, v) > packedElemSize(fd, wide) {
+				wide = v
+			}
+			if packedElemSize(fd, v) < packedElemSize(fd, narrow) {
+				narrow = v
+			}
+		}
+		ww, nw := packedElemSize(fd, wide), packedElemSize(fd, narrow)
+		if ww == 0 {
+			continue
+		}
+		emit := func(what string, total int, vs []protoreflect.Value) {
+			m := base()
+			l := m.Mutable(fd).List()
+			got := 0
+			for _, v := range vs {
+				l.Append(v)
+				got += packedElemSize(fd, v)
+			}
+			yield(fmt.Sprintf("single-field %s packed payload=%d bytes (%d elements, %s; limit %d)", fd.Name(), got, len(vs), what, total), m)
+		}
+		for _, lim := range payloadLimits {
+			for _, total := range []int{lim - 1, lim, lim + 1} {
+				// widest first, topped up with the narrowest (rounded up to a whole element)
+				var vs []protoreflect.Value
+				rest := total
+				for ; rest >= ww; rest -= ww {
+					vs = append(vs, wide)
+				}
+				for ; rest > 0; rest -= nw {
+					vs = append(vs, narrow)
+				}
+				emit("widest then narrowest", total, vs)
+			}
+			if nw < ww {
+				var vs []protoreflect.Value
+				for rest := lim; rest > 0; rest -= nw {
+					vs = append(vs, narrow)
+				}
+				emit("narrowest only", lim, vs)
+				vs = nil
+				for rest, k := lim+1, 0; rest > 0; k++ {
+					v := narrow
+					if k%2 == 0 && rest >= ww {
+						v = wide
+					}
+					vs = append(vs, v)
+					rest -= packedElemSize(fd, v)
+				}
+				emit("alternating", lim+1, vs)
+			} else {
+				// fixed width: the last list below the limit
+				var vs []protoreflect.Value
+				for rest := lim - ww; rest >= ww; rest -= ww {
+					vs = append(vs, wide)
+				}
+				emit("last below the limit", lim-1, vs)
+			}
+		}
+	}
+}
+
 func (rn *runner) singleFieldCases(t *Target, name string) {
 	singleFieldMessages(t.desc(name), false, func(label string, m *dynamicpb.Message) { rn.marshalCase(t, name, m, label) })
+	if rn.prop == "C04" || rn.prop == "C05" {
+		bigPayloadMessages(t.desc(name), func(label string, m *dynamicpb.Message) { rn.marshalCase(t, name, m, label) })
+	}
+	if rn.prop == "C04" && hasRequired(t.desc(name)) {
+		// a message value with NO field set although the type declares required ones is a message value too: Marshal
+		// reports an error or it does not, but Size / Marshal / MarshalTo must agree and must not panic
+		rn.marshalCase(t, name, dynamicpb.NewMessage(t.desc(name)), "nothing set (required fields unset)")
+	}
 	if rn.prop == "C17" {
 		singleFieldMessages(t.desc(name), true, func(label string, m *dynamicpb.Message) { rn.marshalCase(t, name, m, label+" (empty nested)") })
 	}
@@ -640,7 +780,9 @@ func (rn *runner) runMarshal(ts []*Target, n int) {
 				rn.foreignExtensionCase(t, name)
 			}
 			for i := 0; i < n; i++ {
-				ref := randMessage(rn.r, md, genOpts{requiredAlways: rn.prop != "C17", exts: t.extTypes()})
+				// (C04: one value in four leaves required fields unset at random, at any depth — C17 always does)
+				partial := rn.prop == "C17" || (rn.prop == "C04" && rn.r.Chance(1, 4))
+				ref := randMessage(rn.r, md, genOpts{requiredAlways: !partial, exts: t.extTypes()})
 				label := "random"
 				if rn.r.Chance(1, 5) {
 					// a message that carries unknown fields (read from a newer writer): they count and are written
@@ -874,6 +1016,34 @@ func nearNumbers(md protoreflect.MessageDescriptor, inRanges bool) []protowire.N
 		add(r[1] - 1)
 		add(r[1])
 	}
+	for i := 0; i < md.ReservedRanges().Len(); i++ {
+		r := md.ReservedRanges().Get(i) // [r[0], r[1])
+		add(r[0] - 1)
+		add(r[0])
+		add(r[1] - 1)
+		add(r[1])
+	}
+	return out
+}
+
+// reservedNumbers: field numbers the schema of md lists as `reserved` (numbers of deleted fields) — the first, the
+// last and a middle number of every reserved range. To a decoder they are undefined numbers like any other: data a
+// peer with another version of the schema sends for them is an unknown field.
+func reservedNumbers(md protoreflect.MessageDescriptor) []protowire.Number {
+	if md == nil {
+		return nil
+	}
+	seen := map[protowire.Number]bool{}
+	var out []protowire.Number
+	for i := 0; i < md.ReservedRanges().Len(); i++ {
+		r := md.ReservedRanges().Get(i) // [r[0], r[1])
+		for _, n := range []protowire.Number{r[0], r[1] - 1, r[0] + (r[1]-r[0])/2, r[0] + 1, r[1] - 2} {
+			if n >= r[0] && n < r[1] && !seen[n] && undefinedNumber(md, n, true) {
+				seen[n] = true
+				out = append(out, n)
+			}
+		}
+	}
 	return out
 }
 
@@ -899,6 +1069,12 @@ func unknownValue(r *prng.Rng, num protowire.Number, which int) rec {
 // unknownNumber picks a field number the schema of md does not define: half of the time (when there is one)
 // a number adjacent to a declared field / extension / extension-range end, otherwise one of the far numbers.
 func unknownNumber(r *prng.Rng, md protoreflect.MessageDescriptor, inRanges bool) protowire.Number {
+	if md != nil && md.ReservedRanges().Len() > 0 && r.Chance(1, 3) {
+		// (reserved and extension ranges never overlap: these are outside every extension range)
+		if res := reservedNumbers(md); len(res) > 0 {
+			return res[r.Intn(len(res))]
+		}
+	}
 	if near := nearNumbers(md, inRanges); len(near) > 0 && r.Chance(1, 2) {
 		return near[r.Intn(len(near))]
 	}
@@ -1301,6 +1477,50 @@ func (rn *runner) directedUnknown(t *Target, name string, yield func(enc []byte,
 			out = append(out, unknownValue(r, ends[j].num, -1))
 		}
 		yield(emitRecs(out), []string{fmt.Sprintf("extension range %d to %d", rg[0], rg[1]-1), "unknown-numbers-at-the-range-ends-before-and-after"})
+	}
+	// every reserved range: its first, last and a middle number (and the undefined numbers next to its ends), one
+	// record of each wire type, before and after the records of the nearest declared scalar field (reserved numbers of
+	// NESTED message types are reached by the random stream: variant recurses with the nested type's descriptor)
+	for i := 0; i < md.ReservedRanges().Len(); i++ {
+		rg := md.ReservedRanges().Get(i)
+		var nums []protowire.Number
+		for _, n := range []protowire.Number{rg[0] - 1, rg[0], rg[0] + (rg[1]-rg[0])/2, rg[1] - 1, rg[1]} {
+			if undefinedNumber(md, n, true) && (len(nums) == 0 || nums[len(nums)-1] != n) {
+				nums = append(nums, n)
+			}
+		}
+		if len(nums) == 0 {
+			continue
+		}
+		m := base()
+		if md.Fields().Len() > 0 {
+			// one declared field set next to the reserved numbers: the nearest one by number
+			best := md.Fields().Get(0)
+			dist := func(fd protoreflect.FieldDescriptor) protowire.Number {
+				if d := fd.Number() - rg[0]; d >= 0 {
+					return d
+				}
+				return rg[0] - fd.Number()
+			}
+			for j := 1; j < md.Fields().Len(); j++ {
+				if fd := md.Fields().Get(j); dist(fd) < dist(best) {
+					best = fd
+				}
+			}
+			if !best.IsMap() && !best.IsList() && best.Message() == nil && best.ContainingOneof() == nil {
+				m.Set(best, boundary(best, 1))
+			}
+		}
+		recs, _ := parseRecs(refBytes(m))
+		var out []rec
+		for k, n := range nums {
+			out = append(out, unknownValue(r, n, k))
+		}
+		out = append(out, recs...)
+		for k := len(nums) - 1; k >= 0; k-- {
+			out = append(out, unknownValue(r, nums[k], k+1), unknownValue(r, nums[k], k+2), unknownValue(r, nums[k], k+3))
+		}
+		yield(emitRecs(out), []string{fmt.Sprintf("reserved range %d to %d", rg[0], rg[1]-1), "unknown-fields-with-reserved-numbers-before-and-after"})
 	}
 }
 
